@@ -16,6 +16,11 @@ META = {
         "design_ref": "DESIGN.md §4 C10",
         "note": "Memory backend only so far (Secrets/ConfigMaps backends and SQL are outside the claim). Bounds: ≤2 pre-existing records, names 1-3 bytes over {a,v,1,.,-} (quick) / 1-4 (thorough), revisions 0-9 (quick) / 0-99 (thorough), 3 statuses.",
     },
+    "C16": {
+        "text": "Bounded symbolic model checking of the real archive-name pipeline and size accounting of LoadArchiveFiles and of the real plugin cleanJoin + securejoin loop: for every header name (all byte strings up to the bound over the alphabet that matters: letters, '.', '/', backslash, ':', a drive letter) and every tar type flag, whatever is accepted is a clean relative path without '..' segment, backslash or drive prefix; for symbolic 64-bit sizes and limits, accepted archives respect the per-file and total limits and the stream is never asked for more than the remaining budget.",
+        "design_ref": "DESIGN.md §4 C16",
+        "note": "gzip/tar byte streams cut at gzip.NewReader / tar.Reader.Next / io.Copy (class S; native replay builds a real hand-written tar.gz); os.Lstat cut to 'nothing exists' (fresh destination). Outside the claim: symlinks already present in the destination, writeLock/--untar file writes, decompression at byte level, Extract's os.* calls. Bounds: names ≤6 (quick) / ≤8 (thorough) bytes; ≤2/≤3 entries, sizes and limits ≤40.",
+    },
     "C20": {
         "text": "Implicit no-panic/no-deadlock/step-bound assertions of the engine on every path of the strvals entry points fed arbitrary symbolic bytes against destinations of every shape (scalar/list/map/nil under the addressed key).",
         "design_ref": "DESIGN.md §4 C20",
@@ -24,4 +29,4 @@ META = {
 }
 
 _NYB = "harness not built yet in this session (design in DESIGN.md §4); not claimed until its check runs clean"
-NOT_APPLICABLE = {p: _NYB for p in ["C02", "C03", "C05", "C06", "C07", "C08", "C09", "C11", "C12", "C13", "C14", "C15", "C16", "C17", "C18", "C19"]}
+NOT_APPLICABLE = {p: _NYB for p in ["C02", "C03", "C05", "C06", "C07", "C08", "C09", "C11", "C12", "C13", "C14", "C15", "C17", "C18", "C19"]}
